@@ -1195,7 +1195,7 @@ class RZILTransformer(Transformer):
                 return None
 
         self.il_ops_holder.rm_op_by_name(a.get_name())
-        name = f'const_{"neg" if result < 0 else "pos"}_{result}'
+        name = f'const_{"neg" if result < 0 else "pos"}_{abs(result)}'
         return Number(name, result, a_type)
 
     def simplify_arithmetic_expr(self, items) -> Pure:
@@ -1238,7 +1238,7 @@ class RZILTransformer(Transformer):
         self.il_ops_holder.rm_op_by_name(a.get_name())
         self.il_ops_holder.rm_op_by_name(b.get_name())
 
-        name = f'const_{"neg" if items[0] == "-" else "pos"}{items[1]}{items[2] if items[2] else ""}'
+        name = f'const_{"neg" if result < 0 else "pos"}_{abs(result)}'
         return Number(name, result, a_type)
 
     def simplify_compare_expr(self, items) -> Pure:
